@@ -46,3 +46,74 @@ pub fn h_set_roundtrip<const N: usize, const M: usize>(len: usize) {
     assert!(d == s, "C20: the deserialized set equals the original");
     kani::cover!(true, "reached");
 }
+
+/// Deserializing *arbitrary* well-formed input (repeats allowed) yields a well-formed
+/// container: exactly what inserting the decoded items one by one gives (C05, C16).
+pub fn h_decode_arbitrary<const M: usize>(n: usize, as_set: bool) {
+    assert!(n <= 3);
+    let items: [(u8, u8); 3] = kani::any();
+    // distinct keys among the first n
+    let mut d = 0;
+    let mut i = 0;
+    while i < 3 {
+        if i < n {
+            let mut dup = false;
+            let mut j = 0;
+            while j < 3 {
+                if j < i && items[j].0 == items[i].0 {
+                    dup = true;
+                }
+                j += 1;
+            }
+            if !dup {
+                d += 1;
+            }
+        }
+        i += 1;
+    }
+    kani::assume(d <= M);
+    let mut buf = [0u8; 8 + 6];
+    buf[0] = n as u8;
+    let cfg = bincode::config::legacy();
+    let q: u8 = kani::any();
+    // expectation for the probe: last value of q among the first n items
+    let mut e: Option<u8> = None;
+    let mut i = 0;
+    while i < 3 {
+        if i < n && items[i].0 == q {
+            e = Some(items[i].1);
+        }
+        i += 1;
+    }
+    if as_set {
+        let mut i = 0;
+        while i < 3 {
+            if i < n {
+                buf[8 + i] = items[i].0;
+            }
+            i += 1;
+        }
+        let r: Result<(Set<u8, M>, usize), _> = bincode::serde::decode_from_slice(&buf[..8 + n], cfg);
+        assert!(r.is_ok(), "C20: input with at most M distinct elements deserializes");
+        let (s, _) = r.unwrap();
+        let ms = smodel(&s);
+        assert!(ms.wf() && ms.len == d, "C05: a deserialized set has pairwise different elements and len() counts them");
+        assert!(ms.contains(&q) == e.is_some(), "C20: membership equals the decoded items");
+    } else {
+        let mut i = 0;
+        while i < 3 {
+            if i < n {
+                buf[8 + 2 * i] = items[i].0;
+                buf[8 + 2 * i + 1] = items[i].1;
+            }
+            i += 1;
+        }
+        let r: Result<(Map<u8, u8, M>, usize), _> = bincode::serde::decode_from_slice(&buf[..8 + 2 * n], cfg);
+        assert!(r.is_ok(), "C20: input with at most M distinct keys deserializes");
+        let (m, _) = r.unwrap();
+        let mm = model(&m);
+        assert!(mm.wf() && mm.len == d, "C05: a deserialized map has pairwise different keys and len() counts them");
+        assert!(same_opt(&mm.get(&q).map(|p| p.1), &e), "C20: bindings equal inserting the decoded entries one by one (last value wins)");
+    }
+    kani::cover!(d < n, "reached");
+}
